@@ -397,7 +397,7 @@ pub fn format_decimal(buffer: &mut [u8], val: i128, scale: i8) -> &str {
     } else if scale < 0 && val == 0 {
         b"0"
     } else if scale < 0 {
-        let scale = -scale as usize;
+        let scale = scale.unsigned_abs() as usize;
         let num_bytes_written = write_val(buffer, val);
 
         buffer[num_bytes_written..][..scale].fill(b'0');
